@@ -167,7 +167,7 @@ ASSUMPTIONS = [
     "the inheritance chain of ast/modules.rs (module -> impl -> method, module -> type) is transcribed in the lemma statements from the call sites; the call sites themselves (syn-typed code) are not verified",
 ]
 UNVERIFIED = {
-    "C06": ["RenamePattern::from_str / RenameAttr::apply (str::find, slicing, format!: no str reasoning in Verus; Kani 15 min no answer)",
+    "C06": ["RenamePattern::from_str / RenameAttr::apply are unit rename_pattern (byte-sequence string model)",
             "OpaqueType::dtor_abi_name, Method::from_syn (syn)", "every backend printing abi_name rather than a display name (template text)"],
     "C13": ["Attrs::from_ast meta dispatch (syn)", "backends' `if attrs.disable { continue }`"],
 }
